@@ -21,12 +21,19 @@ ORDER = ['C07', 'C09', 'C13', 'C19', 'C16', 'C14', 'C15', 'C04', 'C05', 'C18', '
 ENV = dict(os.environ, GOFLAGS='-mod=mod', GOPROXY='off', GOSUMDB='off', GOTOOLCHAIN='local', BASELINE_TIMEOUT='120s')
 
 
+OPS = os.environ.get('MUT_OPS', 'all')  # all | swap | classic
+
+
 def mutations(path, lines):
     out = []
-    depth_comment = False
+    in_func = False
     for i, raw in enumerate(lines):
         line = raw.rstrip('\n')
         st = line.strip()
+        if line.startswith('func '):
+            in_func = True
+        elif line.startswith('}'):
+            in_func = False
         if not st or st.startswith('//') or 'verifPoint(' in st or 'verifTask(' in st:
             continue
         if st.startswith('package ') or st.startswith('import ') or st.startswith('"') or st.startswith('func ') or st.startswith('type '):
@@ -45,6 +52,14 @@ def mutations(path, lines):
         for a, b in [(' == ', ' != '), (' != ', ' == '), (' < ', ' <= '), (' <= ', ' < '), (' > ', ' >= '), (' >= ', ' > '), (' && ', ' || '), (' || ', ' && ')]:
             if a in line and '"' not in line.split(a)[0][-1:]:
                 out.append((i, 'swap' + a.strip() + 'to' + b.strip(), line.replace(a, b, 1)))
+        # swap two adjacent simple statements (ordering bugs)
+        if in_func and i + 1 < len(lines) and OPS in ('all', 'swap'):
+            nxt = lines[i + 1].rstrip('\n')
+            nst = nxt.strip()
+            nind = nxt[:len(nxt) - len(nxt.lstrip())]
+            simple = lambda x: x and not x.startswith(('//', '}', 'case ', 'default', 'return', 'break', 'continue', 'else', 'func ', 'type ', 'var ', 'const ', 'import ', 'package ', 'go func', 'defer func', 'for ', 'if ', 'switch ', 'select')) and not x.endswith(('{', '(', ',')) and 'verifPoint(' not in x and 'verifTask(' not in x
+            if simple(st) and simple(nst) and ind == nind and st != nst:
+                out.append((i, 'swap-next', None))
         if st == 'continue':
             out.append((i, 'continue-to-break', ind + 'break'))
         if st == 'break':
@@ -62,6 +77,10 @@ def mutations(path, lines):
             out.append((i, 'true-to-false', re.sub(r'\btrue\b', 'false', line, 1)))
         elif re.search(r'\bfalse\b', line) and '"' not in line:
             out.append((i, 'false-to-true', re.sub(r'\bfalse\b', 'true', line, 1)))
+    if OPS == 'swap':
+        out = [m for m in out if m[1] == 'swap-next']
+    elif OPS == 'classic':
+        out = [m for m in out if m[1] != 'swap-next']
     return out
 
 
@@ -99,13 +118,27 @@ def gen(outdir, seed, maxn, shard=0, nshards=1):
         p = os.path.join(wt, f)
         sh(['git', '-C', wt, 'checkout', '-q', '--', '.'])
         lines = open(p).read().split('\n')
-        lines[i] = new
+        if kind == 'swap-next':
+            lines[i], lines[i + 1] = lines[i + 1], lines[i]
+        else:
+            lines[i] = new
         open(p, 'w').write('\n'.join(lines))
         b = sh('go build ./... ', cwd=wt)
         status = 'nobuild'
         if b.returncode == 0:
-            r = sh(['/verif/tools/baseline.sh', wt], timeout=900)
-            status = 'suite-pass' if r.returncode == 0 else 'suite-fail'
+            # the suite runs in its own session; whatever it leaves behind (hung commands, a test binary that
+            # re-executes itself) is killed with the session's process group
+            pr = subprocess.Popen(['/verif/tools/baseline.sh', wt], stdout=subprocess.DEVNULL, stderr=subprocess.DEVNULL, env=ENV, start_new_session=True)
+            try:
+                rc = pr.wait(timeout=600)
+            except subprocess.TimeoutExpired:
+                rc = -1
+            try:
+                os.killpg(pr.pid, 9)
+            except ProcessLookupError:
+                pass
+            pr.wait()
+            status = 'suite-pass' if rc == 0 else 'suite-fail'
             sh(['git', '-C', wt, 'clean', '-fdxq'])
         if status == 'suite-pass':
             kept += 1
